@@ -189,6 +189,17 @@ func runC08(tier string, seed uint64) {
 				}
 				snapshot()
 			}
+			// a body well above a megabyte (a backend must not switch to another, unchecked path for big uploads)
+			if !noInt {
+				bigBody := rng.Bytes(1<<20 + 7)
+				s.PutRaw(b, "obj", [][2]string{cl(len(bigBody)), {"Content-MD5", digests["wrong"]}}, bigBody, -1)
+				snapshot()
+				s.PutRaw(b, "obj", [][2]string{cl(len(bigBody) + 7)}, bigBody, -1)
+				snapshot()
+				s.PutRaw(b, "new", [][2]string{cl(len(bigBody)), {"Content-MD5", digests["wrong"]}}, bigBody, -1)
+				snapshot()
+				nontrivial(fmt.Sprint(kind, "big-body-rejections"))
+			}
 			// key length at the limit
 			for _, kl := range []int{1023, 1024, 1025} {
 				k := strings.Repeat("k", kl)
@@ -237,5 +248,5 @@ func runC08(tier string, seed uint64) {
 			s.end()
 		}
 	}
-	sample("per backend x integrity on/off (metadata limit 300): PUT over an existing object and over an absent key with Content-MD5 in {absent, good, wrong, malformed, 5-byte digest, unpadded, empty header} x declared length {exact, short by 1, long by 1} x body {12 bytes, empty, 1 byte}; aws-chunked uploads with the declared decoded length exact / short by one / long by one / zero; missing / non-numeric / negative / empty Content-Length; empty body with a declared length; body reader failing after every k in 0..len; keys of 1023/1024/1025 bytes; metadata totalling limit-1 / limit / limit+1; the same digest x length matrix, bad part numbers and failing readers for upload-part; after each request a snapshot (GET+HEAD of the previous object, GET of the absent key, bucket listing, ListParts of the pending upload)")
+	sample("per backend x integrity on/off (metadata limit 300): PUT over an existing object and over an absent key with Content-MD5 in {absent, good, wrong, malformed, 5-byte digest, unpadded, empty header} x declared length {exact, short by 1, long by 1} x body {12 bytes, empty, 1 byte}; a body of 1 MiB + 7 with a wrong digest and with a declared length 7 too long; aws-chunked uploads with the declared decoded length exact / short by one / long by one / zero; missing / non-numeric / negative / empty Content-Length; empty body with a declared length; body reader failing after every k in 0..len; keys of 1023/1024/1025 bytes; metadata totalling limit-1 / limit / limit+1; the same digest x length matrix, bad part numbers and failing readers for upload-part; after each request a snapshot (GET+HEAD of the previous object, GET of the absent key, bucket listing, ListParts of the pending upload)")
 }
